@@ -161,9 +161,23 @@ def coq_tensor(tj, lit=zlit, scope="Z"):
     return "[" + "; ".join(ms) + "]"
 
 
+def close(a, b, tol=1e-9):
+    """max-norm closeness that is False on NaN/inf or shape mismatch"""
+    a = np.asarray(a, dtype=np.float64); b = np.asarray(b, dtype=np.float64)
+    if a.shape != b.shape:
+        return False
+    if a.size == 0:
+        return True
+    if not (np.all(np.isfinite(a)) and np.all(np.isfinite(b))):
+        return False
+    return bool(np.max(np.abs(a - b)) <= tol * max(1.0, float(np.max(np.abs(b)))))
+
+
 def canon_int(x, denom=1, tol=1e-7):
     """canonicalise an implementation value that must be k/denom: returns int k or None"""
     v = float(x) * denom
+    if not math.isfinite(v):
+        return None
     k = round(v)
     if abs(v - k) <= tol * max(1.0, abs(v)):
         return int(k)
